@@ -594,6 +594,21 @@ def witness_feasible(world):
             ig = {tuple(e) for e in ign}
             if any((u, v) not in cov and (u, v) not in ig for u, v, _ in g["edges"]):
                 return False
+    if base in ("kMinPathError", "kMinPathErrorCycles"):
+        # the error of an edge is bounded by the slacks of the paths through it: an edge with positive weight that no
+        # route uses makes the model infeasible, whatever the slacks
+        if node_mode:
+            seen = {x for r in routes for x in r}
+            if any(f and x not in seen and x not in ign for x, f in g.get("node_weights", [])):
+                return False
+        else:
+            cov = set()
+            for r in routes:
+                cov.update(zip(r[:-1], r[1:]))
+            ig = {tuple(e) for e in ign}
+            zero_scaled = {tuple(e) for e, sc in (args.get("error_scaling") or []) if sc == 0 and isinstance(e, list)}
+            if any(f and (u, v) not in cov and (u, v) not in ig and (u, v) not in zero_scaled for u, v, f in g["edges"]):
+                return False
     fake = {"solved": True, "raw_solution": {("paths" if dag else "walks"): routes, "weights": weights}}
     if oracle_c10(world, fake):
         return False
